@@ -10,8 +10,11 @@ import (
 	"errors"
 	"fmt"
 	"io"
+	"runtime"
 	"sort"
 	"sync"
+	"sync/atomic"
+	"time"
 
 	"golang.org/x/crypto/ssh"
 	"golang.org/x/crypto/ssh/agent"
@@ -446,6 +449,27 @@ func (t *srvTap) Write(p []byte) (int, error) {
 	}
 	return t.under.Write(p)
 }
+
+// jitter is the client's end of a connection with a slow, yielding Write and Read: it widens the windows
+// between the client's critical sections and its I/O (a transport is allowed to be slow), so that a
+// missing lock or a misplaced enqueue shows up as a different interleaving on the wire.
+type jitter struct {
+	conn *memconn.Conn
+	n    atomic.Uint32
+}
+
+func (j *jitter) pause() {
+	k := j.n.Add(1)
+	for i := uint32(0); i < 1+k%3; i++ {
+		runtime.Gosched()
+	}
+	if k%3 == 0 {
+		time.Sleep(30 * time.Microsecond)
+	}
+}
+func (j *jitter) Read(p []byte) (int, error)  { j.pause(); return j.conn.Read(p) }
+func (j *jitter) Write(p []byte) (int, error) { j.pause(); return j.conn.Write(p) }
+func (j *jitter) Close() error                { return j.conn.Close() }
 
 // noCloser hides Close: agent.NewClient then uses the fully serialised client.
 type noCloser struct{ rw io.ReadWriter }
